@@ -4,13 +4,20 @@ package main
 
 import (
 	"bytes"
+	"io"
 	"io/ioutil"
+	"os"
+	"os/exec"
+	"path/filepath"
 	"strconv"
 	"strings"
+	"sync"
+	"time"
 
 	"github.com/gobwas/httphead"
 	"github.com/gobwas/ws"
 	"github.com/gobwas/ws/wsflate"
+	"github.com/gobwas/ws/wsutil"
 )
 
 func init() {
@@ -28,6 +35,9 @@ func init() {
 	r8Wrap("C03", r8C03)
 	r8Wrap("C12", r8C12)
 	r8Wrap("C06", r8C06)
+	r8Wrap("C19", r8C19F)
+	props["c19first"] = func(c *ctx) { c19FirstChild() }
+	replayers["C19F"] = func(c *ctx, in []string) { c19F(c, 0) }
 	r8Wrap("C13", r8C13)
 	r8Wrap("C14", r8C14)
 	r8Wrap("C17", r8C14)
@@ -274,5 +284,88 @@ func r8C14(c *ctx) {
 		for _, o := range offers {
 			c14A(c, g, o)
 		}
+	}
+}
+
+// r8-C19b: FIRST use in a process, concurrently. State that the library initialises lazily (a table filled on first
+// use) is raced over only by the first sessions of a process; the C19 runs execute every script alone first, which would
+// hide it. A child process (race build) does nothing but start goroutines that, released together, each make the first
+// use of the negotiation / parsing / handshake / control paths; the parent counts the race reports of the child.
+//
+//	C19F <round> <race build 0|1> -> <race reports> <child ok 0|1>
+func c19FirstChild() {
+	start := make(chan struct{})
+	var wg sync.WaitGroup
+	for g := 0; g < 8; g++ {
+		wg.Add(1)
+		go func(g int) {
+			defer wg.Done()
+			defer func() { recover() }()
+			<-start
+			bits := []string{"8", "9", "10", "11", "12", "13", "14", "15"}[g%8]
+			opts, _ := httphead.ParseOptions([]byte("permessage-deflate; server_max_window_bits="+bits+"; client_max_window_bits="+bits), nil)
+			var p wsflate.Parameters
+			for _, o := range opts {
+				p.Parse(o)
+				e := wsflate.Extension{Parameters: wsflate.Parameters{ServerMaxWindowBits: 15, ClientMaxWindowBits: wsflate.WindowBits(8 + g%8)}}
+				e.Negotiate(o)
+			}
+			_ = p.Option()
+			sc := &chunkConn{chunks: [][]byte{c19nRequest("f")}, tail: io.EOF}
+			e2 := wsflate.Extension{Parameters: wsflate.DefaultParameters}
+			ws.Upgrader{Negotiate: e2.Negotiate}.Upgrade(sc)
+			c19nDial("f", "101", func(string) {})
+			body := ws.NewCloseFrameBody(ws.StatusNormalClosure, strings.Repeat("y", 70))
+			wsutil.ControlHandler{Src: bytes.NewReader(body), Dst: ioutil.Discard, State: ws.StateServerSide, DisableSrcCiphering: true}.HandleClose(ws.Header{Fin: true, OpCode: ws.OpClose, Length: int64(len(body))})
+			wsutil.WriteClientMessage(ioutil.Discard, ws.OpText, body)
+			h := wsflate.DefaultHelper
+			if f, err := h.CompressFrame(ws.NewTextFrame(body)); err == nil {
+				h.DecompressFrame(f)
+			}
+		}(g)
+	}
+	close(start)
+	wg.Wait()
+}
+
+func c19F(c *ctx, round int) {
+	d, err := os.MkdirTemp("", "c19first")
+	if err != nil {
+		return
+	}
+	defer os.RemoveAll(d)
+	cmd := exec.Command(os.Args[0], "c19first")
+	if exe, err := os.Executable(); err == nil {
+		cmd.Path = exe
+	}
+	cmd.Env = append(os.Environ(), "C19_RACE_DIR="+d, "GORACE=log_path="+filepath.Join(d, "r")+" halt_on_error=0 exitcode=0")
+	done := make(chan error, 1)
+	if err := cmd.Start(); err != nil {
+		c.emit("C19F %d %s -> 0 0", round, b2s(raceEnabled))
+		return
+	}
+	go func() { done <- cmd.Wait() }()
+	ok := 1
+	select {
+	case err := <-done:
+		if err != nil {
+			ok = 0
+		}
+	case <-time.After(60 * time.Second):
+		cmd.Process.Kill()
+		ok = 0
+	}
+	n := 0
+	fs, _ := filepath.Glob(filepath.Join(d, "r*"))
+	for _, f := range fs {
+		b, _ := os.ReadFile(f)
+		n += bytes.Count(b, []byte("WARNING: DATA RACE"))
+	}
+	c.emit("C19F %d %s -> %d %d", round, b2s(raceEnabled), n, ok)
+}
+
+func r8C19F(c *ctx) {
+	for round := 0; round < 4; round++ {
+		c19F(c, round)
 	}
 }
